@@ -36,32 +36,47 @@ inline std::vector<unsigned char> expandDoc(const std::string& spec) {
     return out;
 }
 
-// "0" = everything asked for; "a.b.c" = chunk sizes used cyclically; every readBytes call returns
-// min(rest of the current chunk, maxToRead) bytes (the current chunk shrinks, like a socket would)
-inline std::vector<size_t> parseChunks(const std::string& s) {
+// chunk spec: "0" = everything asked for; "a.b.c" = read sizes used cyclically; "i.j:a.b" = sizes i, j once, then
+// a, b cyclically.  Every readBytes call returns min(rest of the current chunk, maxToRead) bytes (the current
+// chunk shrinks, like a socket would)
+inline std::vector<size_t> parseSizes(const std::string& s) {
     std::vector<size_t> v;
     size_t i = 0;
     while (i < s.size()) {
         size_t j = s.find('.', i);
         if (j == std::string::npos) j = s.size();
-        v.push_back((size_t)atol(s.substr(i, j - i).c_str()));
+        size_t x = (size_t)atol(s.substr(i, j - i).c_str());
+        v.push_back(x ? x : 1);
         i = j + 1;
     }
-    if (v.size() == 1 && v[0] == 0) v.clear();
     return v;
+}
+struct ChunkSpec { std::vector<size_t> init, cycle; };
+inline ChunkSpec parseChunks(const std::string& s) {
+    ChunkSpec c;
+    if (s == "0") return c;
+    size_t k = s.find(':');
+    if (k == std::string::npos) c.cycle = parseSizes(s);
+    else { c.init = parseSizes(s.substr(0, k)); c.cycle = parseSizes(s.substr(k + 1)); }
+    return c;
 }
 
 class ChunkStream : public BinInputStream {
 public:
-    ChunkStream(const std::vector<unsigned char>& d, const std::vector<size_t>& c)
-        : fData(d), fChunks(c), fPos(0), fCk(0), fLeft(c.empty() ? 0 : c[0]), fReads(0) {}
+    ChunkStream(const std::vector<unsigned char>& d, const ChunkSpec& c)
+        : fData(d), fSpec(c), fPos(0), fCk(0), fLeft(0), fReads(0) {}
     XMLFilePos curPos() const { return fPos; }
+    size_t nextSize() {
+        size_t k = fCk++;
+        if (k < fSpec.init.size()) return fSpec.init[k];
+        return fSpec.cycle[(k - fSpec.init.size()) % fSpec.cycle.size()];
+    }
     XMLSize_t readBytes(XMLByte* const toFill, const XMLSize_t maxToRead) {
         fReads++;
         size_t avail = fData.size() - fPos;
         size_t n = maxToRead < avail ? maxToRead : avail;
-        if (!fChunks.empty() && n > 0) {
-            while (fLeft == 0) { fCk = (fCk + 1) % fChunks.size(); fLeft = fChunks[fCk]; if (fLeft == 0) fLeft = 1; }
+        if (!fSpec.cycle.empty() && n > 0) {
+            if (fLeft == 0) fLeft = nextSize();
             if (n > fLeft) n = fLeft;
             fLeft -= n;
         }
@@ -71,17 +86,17 @@ public:
     }
     const XMLCh* getContentType() const { return 0; }
     std::vector<unsigned char> fData;
-    std::vector<size_t> fChunks;
+    ChunkSpec fSpec;
     size_t fPos, fCk, fLeft, fReads;
 };
 
 class ChunkSource : public InputSource {
 public:
-    ChunkSource(const std::vector<unsigned char>& d, const std::vector<size_t>& c, const char* sysId)
+    ChunkSource(const std::vector<unsigned char>& d, const ChunkSpec& c, const char* sysId)
         : InputSource(sysId), fData(d), fChunks(c) {}
     BinInputStream* makeStream() const { return new ChunkStream(fData, fChunks); }
     std::vector<unsigned char> fData;
-    std::vector<size_t> fChunks;
+    ChunkSpec fChunks;
 };
 
 inline std::string esc(const XMLCh* s, size_t n) {
